@@ -695,12 +695,13 @@ class Ovld:
         if self._compiled:
             try:
                 self.compile()
-            except Exception as exc:
+            except BaseException as exc:
+                # (also an interrupt: the children must not be left behind)
                 failure = exc
         for child in self.children:
             try:
                 child._update()
-            except Exception as exc:
+            except BaseException as exc:
                 failure = failure or exc
         if hasattr(self, "dispatch"):
             self.dispatch.__doc__ = self.mkdoc()
